@@ -39,6 +39,15 @@ impl InferenceRule for MappingAccessRule {
             };
 
             let p = projection.unwrap_or(0);
+
+            // The projection is a constant taken from the bytecode, so it may be far too
+            // large to denote a field of the mapping's value
+            let Some(projection_offset) = p
+                .checked_mul(WORD_SIZE_BITS)
+                .filter(|offset| offset.checked_add(WORD_SIZE_BITS).is_some())
+            else {
+                return Ok(());
+            };
             let key_tv = state.var_unchecked(key);
             let original_val_ty = state.var_unchecked(value);
             let val_ty = unsafe { state.allocate_ty_var() };
@@ -47,7 +56,7 @@ impl InferenceRule for MappingAccessRule {
                 val_ty,
                 TE::packed_of(vec![Span::new(
                     original_val_ty,
-                    p * WORD_SIZE_BITS,
+                    projection_offset,
                     WORD_SIZE_BITS,
                 )]),
             );
